@@ -1011,9 +1011,11 @@ class Engine:
         self._last_model = self.solver.model() if r == "sat" else None
         return r
 
-    def feasible(self, cond=None):
+    def feasible(self, cond=None, quick=False):
         if cond is None:
-            return self._check()
+            r = self._check_quick() if quick else self._check()
+            self._last_model = self.solver.model() if r == "sat" else None
+            return r
         c = bterm(cond) if not z3.is_expr(cond) else cond
         r = self._check(c)
         self._last_model = self.solver.model() if r == "sat" else None
